@@ -150,6 +150,11 @@ func (router *Router) FindRoute(req *http.Request) (*routers.Route, map[string]s
 		if pathItem.Operations()[method] == nil {
 			return nil, nil, &routers.RouteError{Reason: routers.ErrMethodNotAllowed.Error()}
 		}
+		if node == nil {
+			// The path is declared, but its pattern does not match its own text
+			// (e.g. /books/{id}.json requested literally): there is no node to read parameters from.
+			return nil, nil, &routers.RouteError{Reason: routers.ErrPathNotFound.Error()}
+		}
 	}
 
 	if pathParams == nil {
